@@ -5,6 +5,7 @@ use serde_json::{json, Value};
 use crate::engine::Ctx;
 
 pub mod c01;
+pub mod c04;
 pub mod history;
 
 pub struct Meta {
@@ -25,21 +26,21 @@ pub const ALL: [&str; 20] = [
 
 pub fn meta(id: &str, tier: &str) -> Option<Meta> {
     match id {
-        "C01" | "C02" | "C07" | "C08" | "C09" => Some(c01::meta(id, tier)),
+        "C01" | "C02" | "C04" | "C07" | "C08" | "C09" => Some(c01::meta(id, tier)),
         _ => None,
     }
 }
 
 pub fn run(id: &str, ctx: &mut Ctx) {
     match id {
-        "C01" | "C02" | "C07" | "C08" | "C09" => c01::run(id, ctx),
+        "C01" | "C02" | "C04" | "C07" | "C08" | "C09" => c01::run(id, ctx),
         _ => crate::engine::machinery("unknown property id"),
     }
 }
 
 pub fn replay(id: &str, ctx: &mut Ctx, path: &[usize]) {
     match id {
-        "C01" | "C02" | "C07" | "C08" | "C09" => c01::replay(id, ctx, path),
+        "C01" | "C02" | "C04" | "C07" | "C08" | "C09" => c01::replay(id, ctx, path),
         _ => crate::engine::machinery("replay not supported for this property"),
     }
 }
